@@ -6,6 +6,7 @@ static uint64_t H(uint64_t h, const void *p, size_t n) { const unsigned char *b 
 static uint64_t Hd(uint64_t h, double d) { return H(h, &d, 8); }
 static uint64_t He(uint64_t h, xrl_error **e) { if (*e) { h = H(h, &(*e)->code, sizeof(int)); h = H(h, (*e)->message, strlen((*e)->message)); xrl_clear_error(e); } else h = H(h, "noerr", 5); return h; }
 #define H0 1469598103934665603ull
+static const char *ops_crystal_file;       /* set by main() from XRL_CRYSTALS_FILE before any thread exists */
 #ifdef SCHED_GEN
 #include "sched_ops_gen.h"
 #endif
@@ -43,16 +44,30 @@ static uint64_t op_run(int k) {
                if (c) { h = H(h, c->massFractions, 8 * c->nElements); FreeCompoundData(c); } if (a) FreeCompoundData(a); if (b) FreeCompoundData(b); return h; }
     case 26: h = Hd(h, Refractive_Index_Re("Uu", 10.0, 1.0, &e)); return He(h, &e);
     case 27: { struct radioNuclideData *c = GetRadioNuclideDataByIndex(99, &e); h = H(h, &c, sizeof c); return He(h, &e); }
+    /* thread-PRIVATE collections may be modified without locking ("only explicit modification of a SHARED collection requires external locking"):
+       28 builds one crystal by crystal (every new name sorts first: lookups depend on the array being re-sorted), 29 loads one from a two-crystal file */
+    case 28: { Crystal_Array *A = Crystal_ArrayInit(2, &e); Crystal_Struct *si = Crystal_GetCrystal("Si", NULL, NULL);
+               static const char *nm[] = { "Zz", "Mm", "Aa" };
+               for (int i = 0; A && si && i < 3; i++) { free(si->name); si->name = strdup(nm[i]); si->a = 5.0 + i; int rv = Crystal_AddCrystal(si, A, NULL); h = H(h, &rv, sizeof rv); }
+               int rv2 = A && si ? Crystal_AddCrystal(si, A, NULL) : -1; h = H(h, &rv2, sizeof rv2);           /* duplicate: rejected */
+               for (int i = 0; A && i < 3; i++) { Crystal_Struct *c = Crystal_GetCrystal(nm[i], A, NULL); if (c) { h = Hd(Hd(h, c->a), c->volume); Crystal_Free(c); } else h = H(h, "miss", 4); }
+               int n = 0; char **l = A ? Crystal_GetCrystalsList(A, &n, NULL) : NULL; for (int i = 0; l && l[i]; i++) { h = H(h, l[i], strlen(l[i])); xrlFree(l[i]); } if (l) xrlFree(l);
+               if (si) Crystal_Free(si); if (A) Crystal_ArrayFree(A); return He(h, &e); }
+    case 29: { Crystal_Array *A = Crystal_ArrayInit(0, &e); int rv = A && ops_crystal_file ? Crystal_ReadFile(ops_crystal_file, A, NULL) : -1; h = H(h, &rv, sizeof rv);
+               static const char *nm[] = { "Aa", "Bb" };
+               for (int i = 0; A && i < 2; i++) { Crystal_Struct *c = Crystal_GetCrystal(nm[i], A, NULL); if (c) { h = Hd(Hd(h, c->a), c->volume); Crystal_Free(c); } else h = H(h, "miss", 4); }
+               int n = 0; char **l = A ? Crystal_GetCrystalsList(A, &n, NULL) : NULL; for (int i = 0; l && l[i]; i++) { h = H(h, l[i], strlen(l[i])); xrlFree(l[i]); } if (l) xrlFree(l);
+               if (A) Crystal_ArrayFree(A); return He(h, &e); }
     }
 #ifdef SCHED_GEN
-    if (k >= 28) return gen_run(k - 28);     /* generated ops: every value-returning entry point with representative tuples (checks/c17.py writes sched_ops_gen.h) */
+    if (k >= 30) return gen_run(k - 30);     /* generated ops: every value-returning entry point with representative tuples (checks/c17.py writes sched_ops_gen.h) */
 #endif
     return 0;
 }
 #ifdef SCHED_GEN
-#define NOPS (28 + NGEN)
+#define NOPS (30 + NGEN)
 #else
-#define NOPS 28
+#define NOPS 30
 #endif
 
 #endif
